@@ -92,6 +92,8 @@ pub struct CloneReport {
     pub fetched_stored_bytes: u64,
     pub chunks_left_after_reorder: usize,
     pub source_size: u64,
+    /// number of poll_write calls on the output when the reorder stage ended
+    pub writes_after_reorder: usize,
 }
 
 async fn index_from_readable<R: AsyncRead + Unpin + Send>(
@@ -177,6 +179,7 @@ where
         fetched_stored_bytes: 0,
         chunks_left_after_reorder: 0,
         source_size: 0,
+        writes_after_reorder: 0,
     };
     macro_rules! bail {
         ($rep:expr, $e:expr) => {{
@@ -225,6 +228,7 @@ where
     } else {
         None
     };
+    let wcounter = out.counter.clone();
     let mut output = CloneOutput::new(out, clone_index);
     if let Some(oi) = output_index {
         rep.stage = "reorder";
@@ -237,6 +241,7 @@ where
         }
     }
     rep.chunks_left_after_reorder = output.len();
+    rep.writes_after_reorder = wcounter.load(std::sync::atomic::Ordering::Relaxed);
     rep.stage = "seeds";
     for (seed, rs) in &opts.seeds {
         let input = FragReader::new(seed.clone(), rs.clone());
